@@ -23,7 +23,7 @@ ASSUMPTIONS = [
     "lists are used with the condition/action family of their own type; a regex list has one member (other uses are outside the domain)",
     "reference readers of the three vendors' policy / list syntaxes are in this module (namespaces per list kind)",
 ]
-FLOORS = {"quick": {"generator_runs": 2000, "policy_runs": 500, "refs_checked": 1000, "constructs_rejected": 100, "actions_segmented": 1000, "combined_operation_actions": 100, "wildcard_only_as_path_filter_refs": 50, "shared_policy_inputs_checked": 800, "reused_generator_objects": 1500, "reused_generator_objects_after_a_refused_run": 100, "annotated_runs": 1500, "cases_with_included_route_maps": 800},
+FLOORS = {"quick": {"generator_runs": 2000, "policy_runs": 500, "refs_checked": 1000, "constructs_rejected": 100, "actions_segmented": 1000, "combined_operation_actions": 100, "wildcard_only_as_path_filter_refs": 50, "shared_policy_inputs_checked": 800, "reused_generator_objects": 1500, "reused_generator_objects_after_a_refused_run": 100, "annotated_runs": 1500, "cases_with_included_route_maps": 800, "prefix_matches_with_a_zero_bound": 150},
           "thorough": {"generator_runs": 100000, "policy_runs": 25000, "refs_checked": 50000, "constructs_rejected": 5000, "actions_segmented": 50000, "combined_operation_actions": 5000, "wildcard_only_as_path_filter_refs": 2500, "shared_policy_inputs_checked": 40000}}
 VENDORS = ["huawei", "arista", "cumulus"]
 MODELS = {"huawei": ("Huawei CE6870-48S6CQ-EI", "VRP V200R001C00SPC700"), "arista": ("Arista DCS-7368", "EOS 4.29.9.1M"),
@@ -539,6 +539,14 @@ def check_case(seed, acc):
                 if c[0] == "aspf" and arng.random() < 0.4:
                     c[1] = "ASP_ANY"
                     acc.count("wildcard_only_as_path_filter_refs")
+    # a zero bound in an or_longer override (`greater-equal 0 less-equal 24`, covering a default route) is a bound like any other
+    zrng = random.Random(seed ^ 0x0B0)
+    for pol in program:
+        for st in pol["stmts"]:
+            for c in st["conds"]:
+                if c[0] == "prefix" and c[3] and zrng.random() < 0.35:
+                    c[3] = zrng.choice([(0, 24), (0, 32), (0, None)]) if c[1] == "v4" else zrng.choice([(0, 64), (0, None)])
+                    acc.count("prefix_matches_with_a_zero_bound")
     model, soft = MODELS[vendor]
     dev = H.FakeDevice(HardwareView(model, soft), pc=(vendor == "cumulus"))
     w = {"seed": seed, "vendor": vendor, "program": program, "entities": ents}
